@@ -113,6 +113,19 @@ class TimeDeltaV:
                 yield st, SFloat(z3.ToReal(_t(self.sec)))
             yield st, Builtin("timedelta.total_seconds", f)
             return
+        if name in ("days", "seconds", "microseconds"):
+            # python keeps a timedelta normalised: 0 <= microseconds < 10**6, 0 <= seconds < 86400, days carries the sign
+            from .values import SInt
+
+            total = _t(self.sec) * 1000000 + _t(self.micro)
+            whole = total / 1000000  # SMT-LIB integer division: floor for a positive divisor
+            if name == "microseconds":
+                yield st, SInt(_simp(total % 1000000))
+            elif name == "seconds":
+                yield st, SInt(_simp(whole % 86400))
+            else:
+                yield st, SInt(_simp(whole / 86400))
+            return
         raise Unsupported(f"timedelta.{name}")
 
 
